@@ -278,6 +278,10 @@ def k_spec(draw, n1, kinds=K_KINDS_ALL, s_hi=10.0):
             if all(zm):
                 zm[0] = False
             lam = [0.0 if z else x for z, x in zip(zm, lam)]
+        if kind == "nearly_psd":
+            # just outside the cone: one eigenvalue is negative and tiny (between rounding noise and 1e-7), the others O(s)
+            j = draw(st.integers(0, n1 - 1))
+            lam[j] = -draw(gen.log_uniform(1e-12, 1e-7))
         if kind == "indef":
             sg = draw(st.lists(st.sampled_from([1.0, 1.0, -1.0]), min_size=n1, max_size=n1))
             if all(x > 0 for x in sg):
@@ -795,7 +799,7 @@ def projection_case(draw, tier):
         if not g["row0"]:
             g["row0"] = [[0, 0.25], [1, -0.5]]
     else:
-        kk = K_KINDS_ALL + ("psd", "rankdef", "zero")
+        kk = K_KINDS_ALL + ("psd", "rankdef", "zero", "nearly_psd", "nearly_psd")
         g = draw(gen_spec(tier, k_kinds=kk, j_kinds=("from_k", "from_k", "from_k", "generic", "no_b0_b1"), row0=True))
     return {"g": g, "shape": g["shape"], "which": which, "flag": draw(st.booleans()), "required": draw(st.booleans())}
 
